@@ -82,6 +82,9 @@ func genC05(r *PRNG, tier string) *Scenario {
 		dir = "ba"
 	}
 	cut := Cut{Dir: dir, Offset: int64(off), Style: cutStyles[r.Intn(len(cutStyles))]}
+	if cut.Style == fErr || cut.Style == fErrBytes {
+		cut.ErrKind = r.PickS([]string{"", "", "ueof", "ueof", "closedpipe", "netclosed"})
+	}
 	if cut.Style == fTimeout && r.Chance(1, 2) {
 		// a read deadline that expired once and was then extended: the rest of the stream
 		// arrives afterwards, but the connection must stay failed
@@ -356,6 +359,10 @@ func sweepC05(r *PRNG, k, S int) *Scenario {
 	c := &scn.Net.Conns[0].Cuts[0]
 	c.Offset = int64(off)
 	c.Style = cutStyles[k%6]
+	c.ErrKind = ""
+	if c.Style == fErr || c.Style == fErrBytes {
+		c.ErrKind = []string{"", "ueof", "closedpipe", "netclosed"}[(k/6)%4]
+	}
 	// only a plain timeout (a deadline that expired and was extended) is ever transient; see DESIGN 14.1
 	c.Transient = c.Style == fTimeout && k%12 < 6
 	return scn
